@@ -34,6 +34,9 @@ def run_one(sc):
         else:
             if cfg["PIR"]:
                 el = TwoRateTokenBucket(env, 8 * cfg["CIR"], cfg["CBS"], 8 * cfg["PIR"], cfg["PBS"])
+            elif sc.get("idle_pbs"):
+                # a peak burst size without a peak rate: no PIR is given, so the committed bucket alone shapes
+                el = TwoRateTokenBucket(env, 8 * cfg["CIR"], cfg["CBS"], pbs=sc["idle_pbs"])
             else:
                 el = TwoRateTokenBucket(env, 8 * cfg["CIR"], cfg["CBS"])
     except BaseException as e:  # noqa
